@@ -135,6 +135,12 @@ func GenBufs(r *common.Rand, sh Shape, g *common.Gen, allowNil bool) string {
 	if x >= 7 {
 		nb = r.Range(2, 4)
 		g.Stat("bufs-multi")
+		if r.Chance(1, 8) {
+			// many small buffers (a content / parameters assembled from records): more segments than
+			// any fixed-size plan an encoder might keep
+			nb = common.Pick(r, []int{16, 17, 20, 40})
+			g.Stat("bufs-many")
+		}
 	}
 	parts := make([]string, nb)
 	for i := range parts {
